@@ -197,6 +197,11 @@ type Default struct {
 	// linkedIPToDeviceID maps linked IP addresses to the IDs of their devices.
 	linkedIPToDeviceID map[netip.Addr]agd.DeviceID
 
+	// mapsGen is incremented, under mapsMu, every time entries are added to or
+	// replaced in the maps.  Background clean-ups use it to detect that the
+	// state on which their decision was based has been superseded.
+	mapsGen uint64
+
 	// syncTime is the time of the last synchronization point.  It is received
 	// from the storage during a refresh and is then used in consecutive
 	// requests to the storage, unless it's a full synchronization.
@@ -480,6 +485,8 @@ func (db *Default) setProfiles(
 	db.mapsMu.Lock()
 	defer db.mapsMu.Unlock()
 
+	db.mapsGen++
+
 	if isFullSync {
 		clear(db.profiles)
 		clear(db.devices)
@@ -590,6 +597,7 @@ func (db *Default) CreateAutoDevice(
 		// when the same device is used both by a HumanID and a DeviceID, but we
 		// consider this situation to be relatively rare.
 
+		db.mapsGen++
 		db.setDevices(ctx, []*agd.Device{d})
 	}()
 
@@ -620,7 +628,7 @@ func (db *Default) ProfileByDedicatedIP(
 		if errors.Is(err, ErrDeviceNotFound) {
 			// Probably, the device has been deleted.  Remove it from our
 			// profile DB in a goroutine, since that requires a write lock.
-			go db.removeDedicatedIP(ctx, ip)
+			go db.removeDedicatedIP(ctx, ip, db.mapsGen)
 		}
 
 		// Don't add the device ID to the error here, since it is already added
@@ -631,7 +639,7 @@ func (db *Default) ProfileByDedicatedIP(
 	if !slices.Contains(d.DedicatedIPs, ip) {
 		// Perhaps, the device has changed its dedicated IPs.  Remove it from
 		// our profile DB in a goroutine, since that requires a write lock.
-		go db.removeDedicatedIP(ctx, ip)
+		go db.removeDedicatedIP(ctx, ip, db.mapsGen)
 
 		return nil, nil, fmt.Errorf(
 			"%s: rechecking dedicated ips: %w",
@@ -673,7 +681,7 @@ func (db *Default) profileByDeviceID(
 	if !ok {
 		// We have an older device record with a deleted profile.  Remove it
 		// from our profile DB in a goroutine, since that requires a write lock.
-		go db.removeDevice(ctx, id)
+		go db.removeDevice(ctx, id, db.mapsGen)
 
 		return nil, nil, ErrProfileNotFound
 	}
@@ -696,7 +704,7 @@ func (db *Default) profileByDeviceID(
 			//
 			// Do not do that for profiles with enabled autodevices, though.
 			// See the TODO in [Default.CreateAutoDevice].
-			go db.removeDevice(ctx, id)
+			go db.removeDevice(ctx, id, db.mapsGen)
 		}
 
 		return nil, nil, fmt.Errorf("rechecking devices: %w", ErrDeviceNotFound)
@@ -705,24 +713,34 @@ func (db *Default) profileByDeviceID(
 	return p, d, nil
 }
 
-// removeDevice removes the device with the given ID from the database.  It is
-// intended to be used as a goroutine.
-func (db *Default) removeDevice(ctx context.Context, id agd.DeviceID) {
+// removeDevice removes the device with the given ID from the database, unless
+// the maps have been updated since gen was read.  It is intended to be used as
+// a goroutine.
+func (db *Default) removeDevice(ctx context.Context, id agd.DeviceID, gen uint64) {
 	defer slogutil.RecoverAndExit(ctx, db.logger, osutil.ExitCodeFailure)
 
 	db.mapsMu.Lock()
 	defer db.mapsMu.Unlock()
+
+	if db.mapsGen != gen {
+		return
+	}
 
 	delete(db.deviceIDToProfileID, id)
 }
 
 // removeDedicatedIP removes the device link for the given dedicated IP address
-// from the profile database.  It is intended to be used as a goroutine.
-func (db *Default) removeDedicatedIP(ctx context.Context, ip netip.Addr) {
+// from the profile database, unless the maps have been updated since gen was
+// read.  It is intended to be used as a goroutine.
+func (db *Default) removeDedicatedIP(ctx context.Context, ip netip.Addr, gen uint64) {
 	defer slogutil.RecoverAndExit(ctx, db.logger, osutil.ExitCodeFailure)
 
 	db.mapsMu.Lock()
 	defer db.mapsMu.Unlock()
+
+	if db.mapsGen != gen {
+		return
+	}
 
 	delete(db.dedicatedIPToDeviceID, ip)
 }
@@ -763,7 +781,7 @@ func (db *Default) ProfileByHumanID(
 		if errors.Is(err, ErrDeviceNotFound) {
 			// Probably, the device has been deleted.  Remove it from our
 			// profile DB in a goroutine, since that requires a write lock.
-			go db.removeHumanID(ctx, k)
+			go db.removeHumanID(ctx, k, db.mapsGen)
 		}
 
 		// Don't add the device ID to the error here, since it is already added
@@ -775,7 +793,7 @@ func (db *Default) ProfileByHumanID(
 		// Perhaps, the device has changed its human ID, for example by being
 		// transformed into a normal device..  Remove it from our profile DB in
 		// a goroutine, since that requires a write lock.
-		go db.removeHumanID(ctx, k)
+		go db.removeHumanID(ctx, k, db.mapsGen)
 
 		return nil, nil, fmt.Errorf("%s: rechecking human id: %w", errPrefix, ErrDeviceNotFound)
 	}
@@ -784,12 +802,17 @@ func (db *Default) ProfileByHumanID(
 }
 
 // removeHumanID removes the device link for the given key from the profile
-// database.  It is intended to be used as a goroutine.
-func (db *Default) removeHumanID(ctx context.Context, k humanIDKey) {
+// database, unless the maps have been updated since gen was read.  It is
+// intended to be used as a goroutine.
+func (db *Default) removeHumanID(ctx context.Context, k humanIDKey, gen uint64) {
 	defer slogutil.RecoverAndExit(ctx, db.logger, osutil.ExitCodeFailure)
 
 	db.mapsMu.Lock()
 	defer db.mapsMu.Unlock()
+
+	if db.mapsGen != gen {
+		return
+	}
 
 	delete(db.humanIDToDeviceID, k)
 }
@@ -818,7 +841,7 @@ func (db *Default) ProfileByLinkedIP(
 		if errors.Is(err, ErrDeviceNotFound) {
 			// Probably, the device has been deleted.  Remove it from our
 			// profile DB in a goroutine, since that requires a write lock.
-			go db.removeLinkedIP(ctx, ip)
+			go db.removeLinkedIP(ctx, ip, db.mapsGen)
 		}
 
 		// Don't add the device ID to the error here, since it is already added
@@ -835,7 +858,7 @@ func (db *Default) ProfileByLinkedIP(
 	} else if d.LinkedIP != ip {
 		// The linked IP has changed.  Remove it from our profile DB in a
 		// goroutine, since that requires a write lock.
-		go db.removeLinkedIP(ctx, ip)
+		go db.removeLinkedIP(ctx, ip, db.mapsGen)
 
 		return nil, nil, fmt.Errorf(
 			"%s: %q does not match: %w",
@@ -849,12 +872,17 @@ func (db *Default) ProfileByLinkedIP(
 }
 
 // removeLinkedIP removes the device link for the given linked IP address from
-// the profile database.  It is intended to be used as a goroutine.
-func (db *Default) removeLinkedIP(ctx context.Context, ip netip.Addr) {
+// the profile database, unless the maps have been updated since gen was read.
+// It is intended to be used as a goroutine.
+func (db *Default) removeLinkedIP(ctx context.Context, ip netip.Addr, gen uint64) {
 	defer slogutil.RecoverAndExit(ctx, db.logger, osutil.ExitCodeFailure)
 
 	db.mapsMu.Lock()
 	defer db.mapsMu.Unlock()
+
+	if db.mapsGen != gen {
+		return
+	}
 
 	delete(db.linkedIPToDeviceID, ip)
 }
